@@ -50,6 +50,12 @@ var disableResourceLimits = os.Getenv("CELESTIA_SHREX_DISABLE_RESOURCE_LIMITS") 
 
 // unlimitedOutbound lifts any shrex-specific cap on OUTBOUND streams.
 //
+// It is used for StreamsOutbound AND for the total Streams field: rcmgr checks
+// the total (inbound + outbound) separately, so a finite total would cap
+// outbound streams at (total - inbound in use) no matter what StreamsOutbound
+// says. Inbound streams stay bounded by StreamsInbound. The matching
+// BaseLimitIncrease fields must stay zero (math.MaxInt + n overflows).
+//
 // Outbound concurrency is driven by our own fetch needs, never by remote peers,
 // so it is not a DoS vector and needs no per-protocol cap here; the system- and
 // peer-scope outbound limits remain the backstop against a runaway local bug.
@@ -179,7 +185,7 @@ func SetResourceLimits(cfg *rcmgr.ScalingLimitConfig, networkID string) {
 	increaseMemory := int64(streamIncrease) * maxMem
 
 	globalBase := rcmgr.BaseLimit{
-		Streams:         serviceBaseStreams,
+		Streams:         unlimitedOutbound,
 		StreamsInbound:  serviceBaseStreams,
 		StreamsOutbound: unlimitedOutbound,
 		Memory:          baseMemory,
@@ -188,18 +194,16 @@ func SetResourceLimits(cfg *rcmgr.ScalingLimitConfig, networkID string) {
 	// bridge can fan out shrex traffic across many peers without the global cap
 	// firing before the per-peer cap.
 	globalIncrease := rcmgr.BaseLimitIncrease{
-		Streams:        streamIncrease * globalLimitMultiplier,
 		StreamsInbound: streamIncrease * globalLimitMultiplier,
 		Memory:         increaseMemory * globalLimitMultiplier,
 	}
 	peerBase := rcmgr.BaseLimit{
-		Streams:         servicePeerBaseStreams,
+		Streams:         unlimitedOutbound,
 		StreamsInbound:  servicePeerBaseStreams,
 		StreamsOutbound: unlimitedOutbound,
 		Memory:          servicePeerBaseMemory,
 	}
 	peerIncrease := rcmgr.BaseLimitIncrease{
-		Streams:        servicePeerStreamIncrease,
 		StreamsInbound: servicePeerStreamIncrease,
 		Memory:         servicePeerMemoryIncrease,
 	}
@@ -216,7 +220,7 @@ func SetResourceLimits(cfg *rcmgr.ScalingLimitConfig, networkID string) {
 		protoID := ProtocolID(networkID, req.Name())
 		n := peerStreamsPerProtocol[req.Name()]
 		perPeer := rcmgr.BaseLimit{
-			Streams:         n,
+			Streams:         unlimitedOutbound,
 			StreamsInbound:  n,
 			StreamsOutbound: unlimitedOutbound,
 			// Sized above service-peer so that scope (not this one) is the
@@ -227,7 +231,7 @@ func SetResourceLimits(cfg *rcmgr.ScalingLimitConfig, networkID string) {
 			Memory: servicePeerMemoryIncrease * protocolPeerMemoryMultiplier,
 		}
 		protoBase := rcmgr.BaseLimit{
-			Streams:         serviceBaseStreams,
+			Streams:         unlimitedOutbound,
 			StreamsInbound:  serviceBaseStreams,
 			StreamsOutbound: unlimitedOutbound,
 			// Same reasoning as perPeer.Memory above: leaving Memory unset
@@ -238,7 +242,6 @@ func SetResourceLimits(cfg *rcmgr.ScalingLimitConfig, networkID string) {
 			Memory: baseMemory * protocolPeerMemoryMultiplier,
 		}
 		protoIncrease := rcmgr.BaseLimitIncrease{
-			Streams:        streamIncrease,
 			StreamsInbound: streamIncrease,
 			Memory:         increaseMemory * protocolPeerMemoryMultiplier,
 		}
